@@ -254,3 +254,29 @@ Definition mdvd_expected (f : option fps_lit) (cues : list mdvd_cue) : list (Z *
   flat_map (fun c => if mdvd_nonempty c
                      then [(us (frame_instant f (mc_n0 c)), us (frame_instant f (mc_n1 c)))]
                      else []) cues.
+
+(* ============ expected captions of whole documents (times and text lines) ============ *)
+Definition ecap : Type := (Z * Z * list str)%type.
+
+(* a document without any non-empty cue is refused with CaptionReadNoCaptions *)
+Definition read_result (l : list ecap) : result (list ecap) :=
+  match l with [] => Err ENoCaptions | _ => Ok l end.
+
+Definition nonempty_lines (ls : list str) : list str := filter (fun l => negb (str_eqb l [])) ls.
+
+Definition srt_expected_caps (cues : list srt_cue) : list ecap :=
+  flat_map (fun c => match sc_lines c with
+                     | [] => []
+                     | ls => [(us (srt_instant (sc_t0 c)), us (srt_instant (sc_t1 c)), ls)]
+                     end) cues.
+
+Definition vtt_expected_caps (shift_ms : Z) (cues : list vtt_cue) : list ecap :=
+  flat_map (fun c => match vc_lines c with
+                     | [] => []
+                     | ls => [(us (vtt_shifted shift_ms (vc_t0 c)), us (vtt_shifted shift_ms (vc_t1 c)), ls)]
+                     end) cues.
+
+Definition mdvd_expected_caps (f : option fps_lit) (cues : list mdvd_cue) : list ecap :=
+  flat_map (fun c => if mdvd_nonempty c
+                     then [(us (frame_instant f (mc_n0 c)), us (frame_instant f (mc_n1 c)), nonempty_lines (mc_lines c))]
+                     else []) cues.
